@@ -292,6 +292,8 @@ func topCanon(s string) string {
 type gen struct {
 	e    *common.Env
 	next int
+	// > 0: build numbers the cross-reference / object streams from here on (large /Size)
+	boost int
 }
 
 func (g *gen) id(prefix string) string {
@@ -396,6 +398,10 @@ func (g *gen) build(id string, nobj int, acts [][]int, kinds []byte, obj0InUpdat
 	st := make([]ostate, nobj+1)
 	cat, pages := nobj+1, nobj+2
 	maxNum := pages
+	if g.boost > maxNum {
+		// the numbers of the cross-reference and object streams begin here
+		maxNum = g.boost
+	}
 	tag := 0
 	for ri := range acts {
 		rev := revision{kind: kinds[ri]}
@@ -617,7 +623,21 @@ func genMode() {
 			kinds[ri] = "tsh"[r.IntN(3)]
 			ob0[ri] = r.IntN(3) == 0
 		}
-		out(g.build(g.id("s"), nobj, acts, kinds, ob0, "sampled "+classOf(nobj, acts, kinds), 500, r.IntN(20) == 0))
+		// large /Size with sparse sections: one history in eight numbers its xref streams and
+		// object streams from a large number on, so that /Size is large (near 2^13, 2^16, 2^20,
+		// 2^24 and around 8192 + 32 * the length of a small xref stream body) while every
+		// section lists a handful of entries: /Index [0 4 20001 1], subsections 0 4 / 20001 1
+		class := "sampled "
+		if i%8 == 0 {
+			bases := []int{8180, 8192, 8193, 8192 + 32*8, 8192 + 32*20, 8192 + 32*45, 12000, 20000, 65530, 65535, 65536, 1<<20 - 2, 1 << 20, 1<<24 - 40}
+			g.boost = bases[r.IntN(len(bases))] + r.IntN(3)
+			if r.IntN(4) == 0 {
+				g.boost = 8192 + r.IntN(40000)
+			}
+			class = "large-size sparse "
+		}
+		out(g.build(g.id("s"), nobj, acts, kinds, ob0, class+classOf(nobj, acts, kinds), 500, r.IntN(20) == 0))
+		g.boost = 0
 	}
 
 	for _, c := range cycleCases() {
